@@ -42,9 +42,10 @@ set_option maxRecDepth 100000 in
     functions on this tree (the filters and consumers of `dispatch`, documented not to call back into the endpoint;
     the termination hooks of a service and of a session).  A new one changes this list. -/
 theorem calls_through_function_values_under_a_mutex :
-    ((dynamicUnderLock T).map (·.1)).eraseDups =
-      ["bus/net/endpoint.go endPoint.dispatch", "bus/service.go serviceImpl.Terminate",
-       "bus/session/session.go Session.Terminate"] := by decide +kernel
+    ((dynamicUnderLock T).map (fun p => (p.1, p.2.map (fun m => Gen.LockOrder.mutexes.getD m "?")))).eraseDups =
+      [("bus/net/endpoint.go endPoint.dispatch", ["bus/net.endPoint.handlersMutex"]),
+       ("bus/service.go serviceImpl.Terminate", ["bus.serviceImpl.self"]),
+       ("bus/session/session.go Session.Terminate", ["bus/session.Session.cancelMutex"])] := by decide +kernel
 
 set_option maxRecDepth 100000 in
 /-- **What waits for another party under a mutex, directly or through calls.**  A wait (0 a channel send, 1 a channel
